@@ -88,4 +88,71 @@ theorem mass_eq_spec_partial (env : Env) (a : Annotation) (o : Opts)
 example : inDomain ⟨fun _ => ⟨.ok 1, .ok 1, .ok none, .ok []⟩, fun _ => .ok []⟩
     { seq := "PEPTIDE".toList, internal := some [(2, [⟨.int 7, 2⟩])] } 121 true none = true := by decide +kernel
 
+
+open Pept.Mass in
+/-- `mz` = specification mass divided by the charge in force (undivided when that charge is 0), rounded last -/
+theorem mz_eq_spec_partial (env : Env) (a : Annotation) (o : Opts)
+    (hlab : o.isotopeMods = none) (hlab' : a.isotope = none)
+    (hadd : o.adducts = none) (hadd' : a.adducts = none)
+    (hdom : inDomain env a o.ion o.mono none = true) :
+    mz env a o = .ok (adjustMz (specMassT lib env a o.ion ((effCharge a o).getD 0) o.mono o.isotope o.loss none)
+      (effCharge a o) o.precision) := by
+  have hc : effCharge a { o with charge := effCharge a o, precision := none, useIsotopeOnMods := false } = effCharge a o := by
+    unfold effCharge
+    cases o.charge with
+    | some c => rfl
+    | none => cases a.charge <;> rfl
+  have hm := mass_eq_spec_partial env a { o with charge := effCharge a o, precision := none, useIsotopeOnMods := false }
+    hlab hlab' hadd hadd' hdom
+  rw [hc] at hm
+  unfold mz mzWith
+  unfold mass at hm
+  dsimp only at hm ⊢
+  rw [hm]
+  rfl
+
+/-- for a positive charge the m/z is the mass divided by the charge -/
+theorem adjustMz_pos (m : Rat) (z : Int) (hz : 0 < z) : Mass.adjustMz m (some z) none = m / (z : Rat) := by
+  unfold Mass.adjustMz
+  have : z ≠ 0 := by omega
+  simp [roundOpt, this]
+
+/-- `precision = p ≥ 0` moves the result by at most half a unit of the last place: |round(x, p) − x| ≤ ½·10⁻ᵖ -/
+theorem precision_bound (q : Rat) (p : Nat) :
+    roundOpt q (some (p : Int)) - q ≤ 1 / 2 / pow10 p ∧ q - roundOpt q (some (p : Int)) ≤ 1 / 2 / pow10 p :=
+  pyRound_bound q p
+
+open Pept.Mass in
+/-- the adduct arithmetic of the current code, exactly: for one stated ion `count × symbol^charge` (not an electron)
+`_parse_adduct_mass` returns count·(m − q·mₑ) **plus** q·mₑ·(count − 1): the electron correction is applied once instead
+of `count` times (known finding KF-C02-adduct-electron-count; pinned by doctests) -/
+theorem adductMass_discrepancy (mono : Bool) (x : List Nat) (cnt : Int) (sym : Key) (q : Int) (m : Rat)
+    (hp : parseIonElements x = .ok (cnt, sym, q)) (he : sym ≠ kE)
+    (hm : lookup sym (if mono then isotopicMasses else averageMasses) = some m) :
+    adductMass mono x = .ok ((cnt : Rat) * (m - (q : Rat) * Gen.electronMass)
+      + (q : Rat) * Gen.electronMass * ((cnt : Rat) - 1)) := by
+  unfold adductMass
+  rw [hp, bind_ok]
+  simp only [he, if_false]
+  rw [hm]
+  apply congrArg Except.ok
+  ring
+
+/-- so with every count equal to 1 the stated ion contributes exactly m − q·mₑ -/
+theorem adductMass_count_one (mono : Bool) (x : List Nat) (sym : Key) (q : Int) (m : Rat)
+    (hp : Mass.parseIonElements x = .ok (1, sym, q)) (he : sym ≠ kE)
+    (hm : lookup sym (if mono then isotopicMasses else averageMasses) = some m) :
+    Mass.adductMass mono x = .ok (m - (q : Rat) * Gen.electronMass) := by
+  rw [adductMass_discrepancy mono x 1 sym q m hp he hm]
+  apply congrArg Except.ok
+  push_cast
+  ring
+
+/-- the full statement (adduct lists included) is false on the current code: `PEPTIDE/2[+2Na+]` -/
+theorem mass_eq_spec_full_false_on_current_code :
+    Mass.mass ⟨fun _ => default, fun _ => .ok []⟩
+      { seq := "PEPTIDE".toList, charge := some 2, adducts := some [⟨.str "+2Na+".toList, 1⟩] } {}
+    ≠ .ok (specMassT lib ⟨fun _ => default, fun _ => .ok []⟩ { seq := "PEPTIDE".toList } Mass.ionP 2 true 0 0
+        (some ("+2Na+".toList.map Char.toNat))) := by decide +kernel
+
 end Pept.C02
